@@ -51,6 +51,10 @@ def main():
     else:
         meta["demo_without_patch_exit"] = None
     a = sh("git -C %s apply %s" % (wt, patch))
+    if a.returncode != 0:
+        # the seed was made against an earlier HEAD (hook commits since): three-way merge
+        a = sh("git -C %s apply --3way %s && git -C %s reset -q" % (wt, patch, wt))
+        meta["applied_by_three_way_merge"] = a.returncode == 0
     meta["patch_applies"] = a.returncode == 0
     if a.returncode != 0:
         print("patch does not apply:", a.stdout[-500:])
@@ -68,7 +72,7 @@ def main():
         meta["demo_with_patch_exit"] = r1.returncode
         meta["demo_with_patch_tail"] = r1.stdout[-400:]
         # the demo may have left files: restore everything but the patch
-        sh("git -C %s checkout -q -- . && git -C %s clean -fdq -e target && git -C %s apply %s" % (wt, wt, wt, patch))
+        sh("git -C %s checkout -q -- . && git -C %s clean -fdq -e target && (git -C %s apply %s || (git -C %s apply --3way %s && git -C %s reset -q))" % (wt, wt, wt, patch, wt, patch, wt))
     else:
         meta["demo_with_patch_exit"] = None
     confirmed = meta["patch_applies"] and passed >= 55 and failed == 0 and meta["demo_with_patch_exit"] not in (0, None) and meta["demo_without_patch_exit"] == 0
